@@ -33,7 +33,12 @@ pub fn catch<R>(f: impl FnOnce() -> R) -> Result<R, String> {
     install_panic_hook();
     LAST_PANIC.with(|p| *p.borrow_mut() = None);
     match std::panic::catch_unwind(std::panic::AssertUnwindSafe(f)) {
-        Ok(r) => Ok(r),
+        // a panic inside a spawned task is caught by the runtime and only surfaces as a JoinError (or as
+        // `Shutdown` results); the hook has recorded it on this thread all the same
+        Ok(r) => match LAST_PANIC.with(|p| p.borrow_mut().take()) {
+            None => Ok(r),
+            Some(p) => Err(p),
+        },
         Err(_) => Err(LAST_PANIC
             .with(|p| p.borrow_mut().take())
             .unwrap_or_else(|| "panic (no message)".into())),
@@ -130,4 +135,27 @@ pub fn parallel<A: Send + 'static>(
         }
         hs.into_iter().map(|h| h.join().unwrap()).collect()
     })
+}
+
+/// Run a leg that lives in the net engine (`vnet <leg> --out file`) and merge its evidence.
+pub fn merge_net_leg(ev: &mut vcommon::report::Evidence, args: &vcommon::report::Args, leg: &str) {
+    use vcommon::report::{verif_root, Evidence};
+    let exe = std::env::current_exe().ok().and_then(|p| p.parent().map(|d| d.join("vnet")));
+    let out = verif_root().join("out").join(format!("{leg}-{}.json", std::process::id()));
+    let _ = std::fs::create_dir_all(verif_root().join("out"));
+    match exe {
+        Some(exe) if exe.exists() => {
+            let st = std::process::Command::new(&exe)
+                .args([leg, "--tier", args.tier.name(), "--seed", &(args.seed as i64).to_string(), "--out"])
+                .arg(&out)
+                .stdout(std::process::Stdio::null())
+                .status();
+            match (st, std::fs::read_to_string(&out).ok().and_then(|t| serde_json::from_str::<serde_json::Value>(&t).ok())) {
+                (Ok(s), Some(v)) if s.success() => ev.merge(Evidence::from_json(&v)),
+                _ => ev.inconclusive(format!("the net engine did not deliver the {leg} part of the evidence")),
+            }
+            let _ = std::fs::remove_file(&out);
+        }
+        _ => ev.inconclusive("vnet binary not found next to vsim"),
+    }
 }
